@@ -231,18 +231,102 @@ fn interesting(p: &MPol) -> bool {
     f || l2.len() < leaves.len()
 }
 
+/// Lane `compiled`: the abstract policy of a miniscript obtained from the policy compiler.  The
+/// lift of the compiled script must exist exactly when no path of that script mixes lock units
+/// (own path analysis of the script's AST), `has_mixed_timelocks()` must say the same, and the
+/// lifted policy must be equivalent to the concrete policy's own lift.
+fn compiled_case(src: &mut Src, rep: &mut Report) -> Result<(), Failure> {
+    use miniscript::policy::Liftable;
+    let ctx = *src.pick(&[Ctx::Segwitv0, Ctx::Tap, Ctx::Legacy]);
+    let cfg = PolCfg {
+        max_leaves: 7,
+        allow_const: false,
+        distinct_keys: true,
+        key_hex_ctx: ctx,
+        named_keys: false,
+        consistent_locks: !src.chance(1, 2),
+        max_weight: 5,
+        allow_thresh: true,
+        binary: true,
+    };
+    let p = gen::gen_policy(src, &cfg);
+    let text = p.print();
+    rep.desc = format!("{:?} {}", ctx, text);
+    let c = match Concrete::<crate::glue::DK>::from_str(&text) {
+        Ok(c) => c,
+        Err(_) => {
+            rep.class("rejected-by-parser");
+            return Ok(());
+        }
+    };
+    macro_rules! go {
+        ($c:ty) => {{
+            match c.compile::<$c>() {
+                Ok(ms) => {
+                    let node = crate::mirror::ast::from_lib(&ms);
+                    let mixed = crate::mirror::analysis::has_mixed_timelocks(&node);
+                    if ms.has_mixed_timelocks() != mixed {
+                        return fail(
+                            &format!("ms-mixed-timelocks/{}", if mixed { "false-negative" } else { "false-positive" }),
+                            format!("has_mixed_timelocks() = {} for the compiled script {} but its paths {} lock units", !mixed, ms, if mixed { "mix" } else { "do not mix" }),
+                        );
+                    }
+                    match ms.lift() {
+                        Ok(l) => {
+                            if mixed {
+                                return fail("ms-lift-mixed", format!("lift() succeeded on {} although a path mixes lock units", ms));
+                            }
+                            let lm = MPol::from_semantic(&l);
+                            if let Some(d) = equivalent(&p, &lm) {
+                                return fail("compiled-lift-differs", format!("policy {} compiles to {} whose lift {} is not equivalent: {}", text, ms, l, d));
+                            }
+                            rep.class("compiled:lifted");
+                            Some(ms.to_string())
+                        }
+                        Err(e) => {
+                            if !mixed {
+                                return fail("ms-lift-refused", format!("lift() of the compiled script {} fails ({}) although no path mixes lock units", ms, e));
+                            }
+                            rep.class("compiled:lift-refused-mixed");
+                            None
+                        }
+                    }
+                }
+                Err(_) => {
+                    rep.class("compile-error");
+                    None
+                }
+            }
+        }};
+    }
+    let out = match ctx {
+        Ctx::Segwitv0 => go!(miniscript::Segwitv0),
+        Ctx::Tap => go!(miniscript::Tap),
+        _ => go!(miniscript::Legacy),
+    };
+    if let Some(o) = out {
+        if interesting(&p) {
+            rep.nontrivial_by(&(ctx as u8, o));
+        }
+    }
+    Ok(())
+}
+
 impl Check for C18 {
     fn id(&self) -> &'static str { "C18" }
     fn rule(&self) -> String {
-        "case = random abstract policy (<= 10 leaves, nested and/or/thresh with every k, TRIVIAL/UNSATISFIABLE children, repeated atoms) or concrete policy (and / weighted or / thresh). Oracles, all by own truth tables over the policy's distinct atoms (<= 2^12 rows): normalized() and sorted() equivalent to the original; at_age(a)/at_lock_time(t) equivalent to the original with every unmet lock atom forced false (a, t around the policy's locks, both units); A.entails(B) == (forall assignments A => B) on pairs (A, variant of A / independent B); minimum_n_keys == minimum number of true key occurrences over satisfying assignments (None iff unsatisfiable), n_keys == key leaves; Concrete::lift equivalent to own evaluation of the concrete tree; check_timelocks errs iff some syntactic path (one arm per or, all per and, any k per thresh) contains a height and a time lock of the same kind; is_safe_nonmalleable().0 iff no satisfying assignment has all keys false (constant-free policies). Non-trivial = policy contains a constant child, nested same-kind connectives or repeated atoms; distinct by policy text.".into()
+        "lane `compiled`: concrete policy -> compile::<Segwitv0 | Tap | Legacy> -> miniscript: lift() exists exactly when own path analysis of the script finds no path mixing lock units, has_mixed_timelocks() agrees, and the lift is truth-table equivalent to the policy. Other lanes: case = random abstract policy (<= 10 leaves, nested and/or/thresh with every k, TRIVIAL/UNSATISFIABLE children, repeated atoms) or concrete policy (and / weighted or / thresh). Oracles, all by own truth tables over the policy's distinct atoms (<= 2^12 rows): normalized() and sorted() equivalent to the original; at_age(a)/at_lock_time(t) equivalent to the original with every unmet lock atom forced false (a, t around the policy's locks, both units); A.entails(B) == (forall assignments A => B) on pairs (A, variant of A / independent B); minimum_n_keys == minimum number of true key occurrences over satisfying assignments (None iff unsatisfiable), n_keys == key leaves; Concrete::lift equivalent to own evaluation of the concrete tree; check_timelocks errs iff some syntactic path (one arm per or, all per and, any k per thresh) contains a height and a time lock of the same kind; is_safe_nonmalleable().0 iff no satisfying assignment has all keys false (constant-free policies). Non-trivial = policy contains a constant child, nested same-kind connectives or repeated atoms; distinct by policy text.".into()
     }
     fn lanes(&self, tier: Tier) -> Vec<(&'static str, usize, usize)> {
         match tier {
-            Tier::Quick => vec![("semantic", 750_000, 200), ("concrete", 750_000, 200)],
-            Tier::Thorough => vec![("semantic", 15_000_000, 300), ("concrete", 15_000_000, 300)],
+            Tier::Quick => vec![("semantic", 750_000, 200), ("concrete", 750_000, 200), ("compiled", 30_000, 300)],
+            Tier::Thorough => vec![("semantic", 15_000_000, 300), ("concrete", 15_000_000, 300), ("compiled", 600_000, 400)],
         }
     }
     fn run_case(&self, lane: &str, src: &mut Src, rep: &mut Report) -> Result<(), Failure> {
+        if lane == "compiled" {
+            return compiled_case(src, rep);
+        }
         let cfg = PolCfg {
             max_leaves: 9,
             allow_const: true,
